@@ -92,6 +92,9 @@ type c6Model struct {
 	mesh, mat int
 	t, r, s   []float64
 	inst      [][]float64 // 10 per instance: p s r
+	instOf    int         // >0: the Go slice is a sub-slice of model (instOf-1)'s backing array, starting at instOff
+	instOff   int
+	instBack  [][]float64 // non-nil: the backing array holds these values, the model's slice is its prefix of len(inst)
 }
 
 type c6Scene struct {
@@ -102,7 +105,21 @@ type c6Scene struct {
 	lights [][]float64
 }
 
-func q(s string) string { return "q" + s }
+// q-token of a string: bytes outside [A-Za-z0-9_.-/] are written ~XX. The escaping is injective and the model only
+// moves and compares these strings, so the model works on the escaped form.
+func q(s string) string {
+	var b strings.Builder
+	b.WriteByte('q')
+	for i := 0; i < len(s); i++ {
+		ch := s[i]
+		if ch >= 'a' && ch <= 'z' || ch >= 'A' && ch <= 'Z' || ch >= '0' && ch <= '9' || ch == '_' || ch == '.' || ch == '-' || ch == '/' {
+			b.WriteByte(ch)
+		} else {
+			fmt.Fprintf(&b, "~%02X", ch)
+		}
+	}
+	return b.String()
+}
 
 func optF(p *float64) string {
 	if p == nil {
@@ -325,9 +342,21 @@ func (s *c6Scene) build() gltf.PolyformScene {
 			v := vector3.New(md.s[0], md.s[1], md.s[2])
 			pm.Scale = &v
 		}
-		for _, in := range md.inst {
-			pm.GpuInstances = append(pm.GpuInstances, trs.New(vector3.New(in[0], in[1], in[2]),
-				quaternion.New(vector3.New(in[6], in[7], in[8]), in[9]), vector3.New(in[3], in[4], in[5])))
+		mkInst := func(vals [][]float64) []trs.TRS {
+			var l []trs.TRS
+			for _, in := range vals {
+				l = append(l, trs.New(vector3.New(in[0], in[1], in[2]),
+					quaternion.New(vector3.New(in[6], in[7], in[8]), in[9]), vector3.New(in[3], in[4], in[5])))
+			}
+			return l
+		}
+		if md.instOf > 0 && md.instOf-1 < len(out.Models) && md.instOff+len(md.inst) <= cap(out.Models[md.instOf-1].GpuInstances) {
+			// same backing array as an earlier model's list (prefix, longer prefix, offset window): the VALUES are md.inst
+			pm.GpuInstances = out.Models[md.instOf-1].GpuInstances[md.instOff : md.instOff+len(md.inst)]
+		} else if md.instBack != nil {
+			pm.GpuInstances = mkInst(md.instBack)[:len(md.inst)]
+		} else {
+			pm.GpuInstances = mkInst(md.inst)
 		}
 		out.Models = append(out.Models, pm)
 	}
@@ -1085,7 +1114,8 @@ func (c *Ctx) c6Mesh(nv int, special int) c6Mesh {
 	return m
 }
 
-var c6URIs = []string{"a.png", "b.png", "c.jpg", "tex/d.png"}
+// plain URIs and URIs that URL-encoding / JSON escaping would touch (blank, non-ASCII, %, #, ?, &, <, >, +, quote)
+var c6URIs = []string{"a.png", "b.png", "c.jpg", "tex/d.png", "my tex.png", "t\u00ebx \u6728.png", "a%20b.png", "a#b?c=1.png", "a&b<c>.png", "p+q'r.png"}
 
 func (c *Ctx) c6Tex() c6Tex {
 	t := c6Tex{uri: c6URIs[c.Rng.Intn(len(c6URIs))]}
@@ -1156,7 +1186,20 @@ func (c *Ctx) c6Col() []uint32 {
 		return nil
 	}
 	v := []uint32{0, 0x3333, 0x8080, 0xffff, 12345}
-	return []uint32{v[c.Rng.Intn(5)], v[c.Rng.Intn(5)], v[c.Rng.Intn(5)], 0xffff}
+	a := []uint32{0xffff, 0xffff, 0x8000, 0, 0x4000}[c.Rng.Intn(5)]
+	if c.Rng.Intn(4) == 0 {
+		return []uint32{0, 0, 0, a} // black with any alpha (RGBA() is premultiplied: only alpha distinguishes these)
+	}
+	return []uint32{v[c.Rng.Intn(5)], v[c.Rng.Intn(5)], v[c.Rng.Intn(5)], a}
+}
+
+// the same colour with another alpha
+func (c *Ctx) c6OtherAlpha(col []uint32) []uint32 {
+	o := append([]uint32{}, col...)
+	for o[3] == col[3] {
+		o[3] = []uint32{0xffff, 0x8000, 0x4000, 0}[c.Rng.Intn(4)]
+	}
+	return o
 }
 
 func (c *Ctx) c6TexRef(nt int) int {
@@ -1536,7 +1579,18 @@ func (c *Ctx) c6Scene(level int, big int) *c6Scene {
 					default:
 						m.name = "other"
 					}
-					if len(m.exts) > 0 && c.Rng.Intn(2) == 0 { // instead: only one extension PARAMETER differs
+					if c.Rng.Intn(3) == 0 { // instead: only the ALPHA of one colour differs
+						m = s.mats[c.Rng.Intn(i)]
+						m.ptr = nil
+						m.exts = append([]c6Ext{}, m.exts...)
+						if m.hasPbr && m.baseColor != nil && c.Rng.Intn(2) == 0 {
+							m.baseColor = c.c6OtherAlpha(m.baseColor)
+							c.Note("mat.alpha-differs")
+						} else if m.emissive != nil {
+							m.emissive = c.c6OtherAlpha(m.emissive)
+							c.Note("mat.alpha-differs")
+						}
+					} else if len(m.exts) > 0 && c.Rng.Intn(2) == 0 { // instead: only one extension PARAMETER differs
 						m = s.mats[len(s.mats)-1]
 						if i > 0 {
 							m = s.mats[c.Rng.Intn(i)]
@@ -1584,7 +1638,7 @@ func (c *Ctx) c6Scene(level int, big int) *c6Scene {
 				md.s = c.c6Vec(3)
 			}
 			if c.Rng.Intn(4) == 0 {
-				ni := 1 + c.Rng.Intn(3)
+				ni := 1 + c.Rng.Intn(4)
 				for k := 0; k < ni; k++ {
 					md.inst = append(md.inst, c.c6Vec(10))
 				}
@@ -1593,6 +1647,31 @@ func (c *Ctx) c6Scene(level int, big int) *c6Scene {
 		}
 		if big > 0 && i == 0 {
 			md.mesh = 0 // the large mesh is always used
+		}
+		if level >= 1 && i > 0 && c.Rng.Intn(4) == 0 {
+			// instance list related to an earlier model's: same backing array (whole, prefix, offset window) or equal by value
+			var cand []int
+			for j := 0; j < i; j++ {
+				if len(s.models[j].inst) > 0 && s.models[j].instOf == 0 {
+					cand = append(cand, j)
+				}
+			}
+			if len(cand) > 0 {
+				j := cand[c.Rng.Intn(len(cand))]
+				src := s.models[j].inst
+				off := c.Rng.Intn(len(src))
+				if c.Rng.Intn(2) == 0 {
+					off = 0
+				}
+				n := 1 + c.Rng.Intn(len(src)-off)
+				md.inst = append([][]float64{}, src[off:off+n]...)
+				if c.Rng.Intn(4) > 0 {
+					md.instOf, md.instOff = j+1, off
+					c.Note("model.instances-subslice")
+				} else {
+					c.Note("model.instances-equal-by-value")
+				}
+			}
 		}
 		s.models = append(s.models, md)
 	}
@@ -1929,6 +2008,65 @@ func (c *Ctx) c6XfOrder() *c6Scene {
 	return s
 }
 
+// colour dedup stress: for black, white and a random colour, materials that differ ONLY in the alpha of the base colour /
+// of the emissive colour (must not merge) and exact duplicates (must merge), each on its own visible model
+func (c *Ctx) c6ColorStress() *c6Scene {
+	s := c6Witness()
+	cols := [][]uint32{{0, 0, 0, 0xffff}, {0xffff, 0xffff, 0xffff, 0xffff}, {uint32(c.Rng.Intn(0x10000)), uint32(c.Rng.Intn(0x10000)), uint32(c.Rng.Intn(0x10000)), 0xffff}}
+	name := []string{"", "col"}[c.Rng.Intn(2)]
+	for _, col := range cols {
+		if c.Rng.Intn(3) == 0 {
+			continue
+		}
+		b := c6Mat{name: name, hasPbr: true, baseColor: col, bct: -1, mrt: -1, normal: -1, occl: -1}
+		b2 := b
+		b2.baseColor = c.c6OtherAlpha(col)
+		e := c6Mat{name: name, emissive: col, bct: -1, mrt: -1, normal: -1, occl: -1}
+		e2 := e
+		e2.emissive = c.c6OtherAlpha(col)
+		s.mats = append(s.mats, b, b2, b, e, e2, e)
+	}
+	s.models = nil
+	for k, mi := range c.Rng.Perm(len(s.mats)) {
+		s.models = append(s.models, c6Model{name: "c" + strconv.Itoa(k), mesh: k % 2, mat: mi})
+	}
+	c.Note("scene.colour-stress")
+	return s
+}
+
+// GPU-instance lists over ONE backing array: the whole list, a prefix, an offset window, in random order, next to an
+// equal-by-value list with its own backing array
+func (c *Ctx) c6InstShare() *c6Scene {
+	s := c6Witness()
+	n := 3 + c.Rng.Intn(3)
+	var all [][]float64
+	for k := 0; k < n; k++ {
+		all = append(all, c.c6Vec(10))
+	}
+	owner := c6Model{name: "all", mesh: 0, mat: -1, inst: all}
+	pre := 1 + c.Rng.Intn(n-1)
+	off := 1 + c.Rng.Intn(n-1)
+	subs := []c6Model{
+		{name: "prefix", mesh: 1, mat: -1, inst: append([][]float64{}, all[:pre]...), instOf: 1, instOff: 0},
+		{name: "window", mesh: 0, mat: -1, inst: append([][]float64{}, all[off:]...), instOf: 1, instOff: off},
+		{name: "whole", mesh: 1, mat: -1, inst: append([][]float64{}, all...), instOf: 1, instOff: 0},
+		{name: "byvalue", mesh: 0, mat: -1, inst: append([][]float64{}, all[:pre]...)},
+	}
+	c.Rng.Shuffle(len(subs), func(i, j int) { subs[i], subs[j] = subs[j], subs[i] })
+	if c.Rng.Intn(2) == 0 {
+		// SHORTER first: model 0 uses a prefix of the backing array, a later model the whole array
+		short := c6Model{name: "short", mesh: 0, mat: -1, inst: append([][]float64{}, all[:pre]...), instBack: all}
+		longer := c6Model{name: "longer", mesh: 1, mat: -1, inst: append([][]float64{}, all...), instOf: 1, instOff: 0}
+		s.models = []c6Model{short, longer, subs[0]}
+		c.Note("instshare.shorter-first")
+	} else {
+		s.models = append([]c6Model{owner}, subs[:3]...)
+		c.Note("instshare.whole-first")
+	}
+	c.Note("scene.instance-sharing")
+	return s
+}
+
 func runC06(c *Ctx) {
 	// fixed cases first
 	c.c6Case(c6SamplerNameWitness(), true, "")
@@ -1977,6 +2115,12 @@ func runC06(c *Ctx) {
 		}
 		if k%10 == 5 {
 			s = c.c6XfOrder()
+		}
+		if k%10 == 9 {
+			s = c.c6ColorStress()
+		}
+		if k%10 == 1 && k > 1 {
+			s = c.c6InstShare()
 		}
 		c.c6Case(s, k%2 == 0, "")
 	}
